@@ -1733,6 +1733,13 @@ func (s *Service) runPipeline(rp *runnablePipeline) error {
 	// unconditionally, including on error, so the cleanup goroutine (already
 	// blocked on it) is never left hanging.
 	err := s.pipelines.UpdateStatus(ctx, rp.pipeline.ID, pipeline.StatusRunning, "")
+	if err != nil {
+		// The workers are already running: end this run, it never went live.
+		// The error is marked fatal so that the cleanup goroutine degrades the
+		// pipeline with this cause instead of restarting it - Start reports the
+		// failure to its caller, who decides what happens next.
+		rp.t.Kill(cerrors.FatalError(cerrors.Errorf("could not mark pipeline %s as running: %w", rp.pipeline.ID, err)))
+	}
 	close(startupDone)
 	return err
 }
